@@ -1419,6 +1419,8 @@ val obs_eq_res : (bool * err) option -> z list
 
 val obs_opt_puri : puri option -> z list
 
+val callid_sig_ip : bool -> n -> n -> byte list -> n * n
+
 val run_msgsig : z list -> byte list -> z list
 
 val entry : n -> z list -> byte list list -> z list
